@@ -287,6 +287,29 @@ def g_std(files):
     return inst, sites, viol
 
 
+# ----------------------------------------------------------------------------- G-PROFILE
+
+PROFILE_IDENTS = ('debug_assertions', 'debug_assert', 'debug_assert_eq', 'debug_assert_ne', 'overflow_checks')
+
+
+def g_profile(files):
+    """the generated program must not depend on the build profile of the *user's* crate: no `cfg(debug_assertions)`,
+    `cfg!(debug_assertions)`, `debug_assert*!` (or `overflow_checks`) token inside a quote! body. The corpus is built in
+    the dev profile only, so code behind `#[cfg(not(debug_assertions))]` would never be seen by the E-level rules."""
+    inst = 0
+    viol = []
+    for f in files:
+        for (fn, a, b, line) in f.quotes:
+            inst += 1
+            for k in range(a, b):
+                t = f.toks[k]
+                if t.kind == 'ident' and t.text in PROFILE_IDENTS:
+                    viol.append({'file': f.rel, 'fn': fn, 'line': t.line, 'token': t.text,
+                                 'what': f'generated code depends on the build profile (`{t.text}`) in {f.rel}::{fn}: guards or '
+                                         f'constructions behind it are not the ones analysed in the dev profile'})
+    return inst, viol
+
+
 # ----------------------------------------------------------------------------- G-LWW
 
 CONST_RHS = (('ConstFn', '::', 'Const'), ('NewUnchecked', '::', 'On'), ('true',), ('false',))
